@@ -57,10 +57,17 @@ type Obs struct {
 	Nil      bool // the API returned a nil object without error
 	Trace    []string
 	Steps    int64
+	// Invariant is the first violation of a machine invariant the step hook saw during
+	// the run (empty: none). Desc shows it instead of the result, so that every
+	// comparison made by a check reports it.
+	Invariant string
 }
 
 // Desc renders the result for comparisons: "error" or "TYPE:printed".
 func (o Obs) Desc() string {
+	if o.Invariant != "" {
+		return "INVARIANT-VIOLATED(" + o.Invariant + ")"
+	}
 	if o.Panicked {
 		return "PANIC(" + o.PanicMsg + ")"
 	}
@@ -85,6 +92,9 @@ type Evaluator struct {
 	stopped atomic.Bool
 
 	traceCap, traceBytes int
+
+	prevCall  bool
+	invariant string
 }
 
 // Describe renders an engine object as "TYPE:printed".
@@ -184,6 +194,13 @@ func (ev *Evaluator) installHook() {
 	}
 	m.VerifSetStepHook(func(m *vm.VM, ip int, op code.Opcode) error {
 		ev.steps++
+		// invariant: the body of a user-defined function starts on an empty value stack
+		if ev.prevCall && ip == 0 && ev.invariant == "" {
+			if d := m.VerifStackDepth(); d != 0 {
+				ev.invariant = fmt.Sprintf("a function body started with %d operand(s) already on its value stack (top: %s)", d, Describe(m.VerifStackPeek(0)))
+			}
+		}
+		ev.prevCall = op == code.OpCall
 		if ev.OpHist != nil && int(op) < 64 {
 			atomic.AddInt64(&ev.OpHist[op], 1)
 		}
@@ -223,17 +240,20 @@ func (ev *Evaluator) Exec(obj interface{}) (o Obs) {
 	ev.trace = nil
 	ev.traceBytes = 0
 	ev.steps = 0
+	ev.prevCall, ev.invariant = false, ""
 	defer func() {
 		if r := recover(); r != nil {
 			o.Panicked = true
 			o.PanicMsg = fmt.Sprint(r)
 			o.Trace = ev.trace
 			o.Steps = ev.steps
+			o.Invariant = ev.invariant
 		}
 	}()
 	res, err := ev.E.Execute(obj)
 	o.Trace = ev.trace
 	o.Steps = ev.steps
+	o.Invariant = ev.invariant
 	if err != nil {
 		o.Err = err
 		if errors.Is(err, ErrBudget) || strings.Contains(err.Error(), ErrBudget.Error()) {
